@@ -46,6 +46,21 @@ def step (_ : Unit) (ws : List String) : Unit × String :=
       let pending := eds.length - early.foldl (· + ·) 0
       ((), s!"{if ok then "ok" else "fail"} direct={direct} early={commaNat early} done={k}:{pending}")
     | _, _ => ((), "bad-op")
+  | "overlap" :: w :: mode :: "A" :: rest =>
+    -- two jobs on one pool; a trailing `g` marks the gated item of job A; verdicts are per job
+    if !w.startsWith "w=" then ((), "bad-op") else
+    if !(mode == "b-before-release" || mode == "b-after-a") then ((), "bad-op") else
+    let aToks := rest.takeWhile (· ≠ "B")
+    let bToks := (rest.dropWhile (· ≠ "B")).drop 1
+    let strip (t : String) : String := if t.endsWith "g" then (t.dropEnd 1).toString else t
+    match (w.drop 2).toString.toNat?, parseItems 0 (aToks.map strip), parseItems 0 bToks with
+    | some cores, some a, some b =>
+      if cores < 1 ∨ cores > 64 ∨ ¬ rest.contains "B" then ((), "bad-op") else
+      let ty : Item → Nat := fun x => x.2.1
+      let v1 : Item → Bool := fun x => x.2.2
+      let r (its : List Item) := if blockSigOk ty defaultBatched v1 cores its then "ok" else "fail"
+      ((), s!"A={r a} B={r b}")
+    | _, _, _ => ((), "bad-op")
   | _ => ((), "bad-op")
 
 def machine : Machine := { σ := Unit, init := (), step := step }
